@@ -451,15 +451,6 @@ def ksa_loops(ctx, rep, se):
     fn = "rc4::Rc4::key_scheduling_algorithm"
     body = se.body
     fi = algos.for_info(ctx, se)
-    p1 = p2 = None
-    for head, (elem, src, lp) in fi.items():
-        if util.is_call(src, "std::iter::Iterator::enumerate") and util.is_call(strip(src[2][0]), "core::slice::<impl [T]>::iter_mut"):
-            p1 = (head, elem, src, lp)
-        elif util.is_call(src, "std::iter::Iterator::zip"):
-            p2 = (head, elem, src, lp)
-    if not p1 or not p2 or len(fi) != 2:
-        rep.violation("ksa", fn, "shape", "expected the identity-init pass and the key-mixing pass (for_each or for loops)", body.loc())
-        return
     fs = ctx.fb.adt_fields("rc4::Rc4")
     si = [i for i, f in enumerate(fs) if ctx.fb.ty(f["ty"]).k == "array"][0]
     form = ksa_form(ctx, se)
@@ -467,18 +458,52 @@ def ksa_loops(ctx, rep, se):
         rep.violation("ksa", fn, "shape", "the KSA neither works on self.state nor returns a local [u8; 256] table", body.loc())
         return
     key_param, table_loc, in_self = form
-    # pass 1: for (n, x) in self.state.iter_mut().enumerate() { *x = n as u8 }
-    head, elem, src, lp = p1
-    im = strip(src[2][0])
-    la = se.term_info.get(im[3][1], {}).get("locargs", (("?",),))[0]
-    over_state = la[0] == "ref" and la[1] == table_loc
-    stores = [(loc, v) for (bi, si_), (loc, v) in se.assigns.items() if loc[0] == "deref" and strip(loc[1]) == ("field", elem, 1)]
-    init_ok = over_state and len(stores) == 1 and strip(stores[0][1]) == ("cast", "IntToInt", ("field", elem, 0), "u8")
-    rep.check(init_ok, "ksa", fn, "identity-init", "S[n] = n for every n (enumerate over the whole state)", "state initialisation is not S[n] = n over iter_mut().enumerate()", body.loc())
+    from rules import loopsem
+
+    def lens(base):
+        if base == table_loc or strip(base) == strip(table_loc):
+            return lambda n: 256
+        return None
+
+    sem = loopsem.Sem(ctx, se, lens)
+    p1 = p2 = None
+    for head, (elem, src, lp) in fi.items():
+        if util.is_call(src, "std::iter::Iterator::zip") and strip(src[2][0])[0] == "agg" and strip(src[2][0])[2] == "std::ops::Range":
+            p2 = (head, elem, src, lp)
+            continue
+        r = sem.statements(lp)
+        if r is not None and len(r[0]) == 1:
+            d, A, v = r[0][0]
+            # S[i] := i for i = 0..256 (the counter may come from enumerate() or from a zipped 0..=255)
+            if d == table_loc and A == (1, 0) and v[0] == "cnt" and v[1] == (1, 0) and r[1](0) >= 256:
+                p1 = (head, elem, src, lp)
+    if not p2 or len(fi) != (2 if p1 else 1):
+        rep.violation("ksa", fn, "shape", "expected the identity-init pass and the key-mixing pass (for_each or for loops)", body.loc())
+        return
+    init_ok = p1 is not None and p1[0] < p2[0] and cfg.must_pass_block(body, p1[0], p2[0])
+    how = "first pass: S[n] = n for n = 0..256"
+    if p1 is None:
+        ni = new_initial_state(ctx)
+        init_ok = ni is not None and ni[0] is not None and in_self and identity_table(ni[0])
+        how = "Rc4::new hands in the identity table [0, 1, .. 255]"
+    rep.check(init_ok, "ksa", fn, "identity-init", "S[n] = n for every n before mixing (%s)" % how, "state initialisation is not S[n] = n for every n before the mixing pass", body.loc())
     # pass 2: for (n, k) in (0..256).zip(key.iter().cycle())
     head, elem, src, lp = p2
     a, b = strip(src[2][0]), strip(src[2][1])
-    rng_ok = a[0] == "agg" and a[2] == "std::ops::Range" and tuple(x[:2] for x in a[4]) == (("int", 0), ("int", 256))
+
+    def is_256(x):
+        x = util.numnorm(x)
+        if x[:2] == ("int", 256):
+            return True
+        # the length of the 256-byte table itself
+        if x[0] == "len":
+            y = strip(x[1])
+            while y[0] in ("after", "phi") and y[0] == "after":
+                y = strip(y[3])
+            return y == strip(table_loc) or (y[0] == "field" and y[2] == si and in_self)
+        return False
+
+    rng_ok = a[0] == "agg" and a[2] == "std::ops::Range" and a[4][0][:2] == ("int", 0) and is_256(a[4][1])
     cyc_ok = util.is_call(b, "std::iter::Iterator::cycle") and util.is_call(strip(b[2][0]), "core::slice::<impl [T]>::iter") and strip(strip(b[2][0])[2][0]) == ("param", key_param)
     rep.check(rng_ok and cyc_ok, "ksa", fn, "index-and-key-schedule", "i = 0..256 in order zipped with key bytes cycled (key[i mod len])", "mixing pass does not iterate (0..256) zipped with the cycled key", body.loc())
     st = algos.loop_state(se, head)
